@@ -46,6 +46,10 @@ def run_patch(patch, props, repo='/repo'):
         shutil.rmtree(tmp, ignore_errors=True)
 
 
+def _one(a):
+    return run_patch(a[0], a[1])
+
+
 def main():
     args = [a for a in sys.argv[1:] if not a.startswith('--')]
     sd = os.path.join(HERE, 'seeded')
@@ -61,8 +65,11 @@ def main():
             items.append((a, os.path.join(d, 'patch.diff'), meta.get('property')))
     props = [p for p in PROPS if p != 'C19']
     missed = 0
-    for name, patch, target in items:
-        res, err = run_patch(patch, props)
+    jobs = int(os.environ.get('GSA_JOBS', '14'))
+    from concurrent.futures import ProcessPoolExecutor
+    with ProcessPoolExecutor(max_workers=jobs) as ex:
+        results = list(ex.map(_one, [(pt, props) for _, pt, _ in items]))
+    for (name, patch, target), (res, err) in zip(items, results):
         if err:
             print(f'{name}: ERROR {err}')
             continue
